@@ -111,8 +111,8 @@ def check(ctx):
             false_t = tg.get(0) if 0 in tg else info["otherwise"]
             zt = zero_test(info["bin"]["op"], cv, const_right)
             if zt is None:
-                ctx.fail("C02.a", "%s:counter-test-not-exact-zero-test" % fk, R.loc(b),
-                         "the tree counter is tested with %s %s, which does not separate 'root' (== 0) from 'nested' (!= 0)" % (info["bin"]["op"], cv))
+                # not a root test (e.g. a depth warning); it cannot license a disposition - the rules below require exact tests
+                ctx.notes.append("counter comparison %s %s at %s is not an exact zero test and is ignored" % (info["bin"]["op"], cv, R.loc(b)))
                 continue
             eq_t, ne_t = (true_t, false_t) if zt else (false_t, true_t)
             idx_checks.append((b, 0, eq_t, ne_t, other))
